@@ -835,10 +835,52 @@ def getSymOp(s):
         for Rpart in eqparts[1::2]:
             R[i, :] += symvec[Rpart.lower()]
         for tpart in eqparts[::2]:
-            t[i] += eval("1.0*%s+0" % tpart)
+            t[i] += _symop_constant(tpart)
     t -= numpy.floor(t)
     rv = SymOp(R, t)
     return rv
+
+
+# signed number or fraction in the constant part of a symmetry operator
+_rx_symop_constant = re.compile(r"[+-]?(?:\d+\.?\d*|\.\d+)(?:/(?:\d+\.?\d*|\.\d+))?")
+
+
+def _symop_constant(tpart):
+    """Return the value of the constant part of a symmetry operator formula.
+
+    The constant part is a sum of signed numbers or fractions such as
+    ``1/2``, ``-1/4`` or ``+0.5``.  It is read as data and never evaluated.
+
+    Parameters
+    ----------
+    tpart : str
+        The text between the ``x``, ``y``, ``z`` terms of the formula.
+
+    Returns
+    -------
+    float
+        The sum of the numbers in `tpart`, zero for an empty string.
+
+    Raises
+    ------
+    StructureFormatError
+        When `tpart` is not a sum of signed numbers or fractions.
+    """
+    total = 0.0
+    pos = 0
+    while pos < len(tpart):
+        mx = _rx_symop_constant.match(tpart, pos)
+        # all terms after the first one must carry an explicit sign
+        if mx is None or (pos > 0 and tpart[pos] not in "+-"):
+            emsg = "Invalid number %r in symmetry operator." % tpart
+            raise StructureFormatError(emsg)
+        nom, _, den = mx.group().partition("/")
+        if den and float(den) == 0.0:
+            emsg = "Division by zero in symmetry operator term %r." % tpart
+            raise StructureFormatError(emsg)
+        total += float(nom) / float(den) if den else float(nom)
+        pos = mx.end()
+    return total
 
 
 def getParser(eps=None):
